@@ -128,7 +128,10 @@ PROPS = {
     ),
     'C03': dict(
         runs=[dict(src='c03_hostile_input.c', ldflags='-Wl,--wrap=read,--wrap=lseek'),
-              dict(src='c03_hostile_input.c', ldflags='-Wl,--wrap=read,--wrap=lseek', variant='vg', tool='memcheck', args_quick=['--stride', '80'], args_thorough=['--stride', '120'])],
+              dict(src='c03_hostile_input.c', ldflags='-Wl,--wrap=read,--wrap=lseek', variant='vg', tool='memcheck', args_quick=['--stride', '80'], args_thorough=['--stride', '120']),
+              # the same plain -O1 build WITHOUT any tool, every case: the sanitizer's allocator refuses huge requests (malloc returns NULL), the system allocator
+              # on an overcommitting kernel grants them - what the library then does with a 2^40-byte block (memset, read loop) only shows here, as a crash or CPU hang
+              dict(src='c03_hostile_input.c', ldflags='-Wl,--wrap=read,--wrap=lseek', variant='vg')],
         level='exploration',
         rule=('case = one input = (corpus file written by the library for a format/channels/metadata level, mutation recipe) or random bytes; 100 inputs per '
               'corpus file quick, 1500 thorough: unmodified, ~40 truncations (dense in the header, 97-byte steps in the data), 1-4 stacked mutations from '
